@@ -178,7 +178,7 @@ def run_cli(case):
 @st.composite
 def cli_cases(draw):
     from vlib import cfggen
-    o = draw(cfggen.base_config(nmin=16, nmax=40, min_laststep=3, max_laststep=30, via_rev=6))
+    o = draw(cfggen.base_config(nmin=16, nmax=40, min_laststep=3, max_laststep=30, via_rev=6, machine=3))
     o["outstep"] = draw(st.sampled_from([1, 3]))
     o["FPTrack"] = 0
     keys = sorted(o)
